@@ -34,6 +34,8 @@ pub struct Conf {
     pub strf: Cfm,
     /// a crypt filter named AltCF that neither StmF nor StrF refers to (V4+; only Crypt overrides select it)
     pub extra: Option<Cfm>,
+    /// the identity transformation is selected through a crypt filter of its own name (NoCrypt) listed in CF
+    pub identity_named: bool,
     pub encrypt_metadata: bool,
     pub perm_bits: u64,
     pub user: String,
@@ -62,7 +64,7 @@ impl Conf {
         }
     }
     pub fn label(&self) -> String {
-        format!("V{}R{}/{}bit/stm={:?}/str={:?}/alt={:?}/meta={}", self.v(), self.r(), self.key_bits, self.stm, self.strf, self.extra, self.encrypt_metadata)
+        format!("V{}R{}/{}bit/stm={:?}/str={:?}/alt={:?}{}/meta={}", self.v(), self.r(), self.key_bits, self.stm, self.strf, self.extra, if self.identity_named { "/identity-as-NoCrypt" } else { "" }, self.encrypt_metadata)
     }
     pub fn enc_cfg(&self) -> EncCfg {
         EncCfg {
@@ -72,6 +74,7 @@ impl Conf {
             stm: self.stm,
             strf: self.strf,
             extra: self.extra.iter().map(|c| (b"AltCF".to_vec(), *c)).collect(),
+            identity_name: if self.identity_named { Some(b"NoCrypt".to_vec()) } else { None },
             encrypt_metadata: self.encrypt_metadata,
             p: table22_p(self.perm_bits),
             user_pw: self.user_prepared.clone(),
@@ -159,7 +162,8 @@ pub fn gen_conf(r: &mut Rng, index: u64) -> Conf {
     for b in file_key.iter_mut() {
         *b = r.u8();
     }
-    Conf { kind, key_bits, stm, strf, extra, encrypt_metadata, perm_bits, user, owner, user_prepared: up, owner_prepared: op, file_key }
+    let identity_named = kind >= 4 && (stm == Cfm::Identity || strf == Cfm::Identity) && r.chance(1, 2);
+    Conf { kind, key_bits, stm, strf, extra, identity_named, encrypt_metadata, perm_bits, user, owner, user_prepared: up, owner_prepared: op, file_key }
 }
 
 /// document with strings in every position, binary/empty strings and streams, a Metadata stream,
@@ -256,8 +260,17 @@ pub fn lopdf_state(conf: &Conf, doc: &Document) -> Result<EncryptionState, Strin
     for c in [conf.stm, conf.strf] {
         if c != Cfm::Identity {
             cfs.insert(filter_name(c).as_bytes().to_vec(), filter_arc(c));
+        } else if conf.identity_named {
+            cfs.insert(b"NoCrypt".to_vec(), filter_arc(Cfm::Identity));
         }
     }
+    let filter_name = |c: Cfm| -> &'static str {
+        if c == Cfm::Identity && conf.identity_named {
+            "NoCrypt"
+        } else {
+            filter_name(c)
+        }
+    };
     if let Some(c) = conf.extra {
         cfs.insert(b"AltCF".to_vec(), filter_arc(c));
     }
@@ -496,6 +509,9 @@ pub fn c06_lopdf_to_ref(conf: &Conf, model: &RDoc, r: &mut Rng) -> Option<(Strin
     }
     let mut encdoc = parsed.doc.clone();
     encdoc.objects.retain(|id, _| !parsed.containers.contains(&id.0));
+    if let Some(m) = aes_shape_violation(&encdoc, &cfg, Some((*en, *eg))) {
+        return Some(("aes-ciphertext-shape".into(), format!("{} [{}]", m, conf.label())));
+    }
     let dec = match decrypt_doc(&encdoc, &cfg, &keys[0], Some((*en, *eg))) {
         Ok(x) => x,
         Err(e) => return Some(("ref-decrypt".into(), format!("the reference handler cannot decrypt lopdf's ciphertext: {} [{}]", e, conf.label()))),
@@ -650,7 +666,7 @@ fn cfm_from(s: &str) -> Option<Cfm> {
 }
 
 fn conf_to_json(c: &Conf) -> Value {
-    json!({"kind":c.kind,"key_bits":c.key_bits,"stm":format!("{:?}",c.stm),"strf":format!("{:?}",c.strf),"extra":c.extra.map(|x| format!("{:?}",x)),"encrypt_metadata":c.encrypt_metadata,"perm_bits":c.perm_bits,"user_prepared":hex(&c.user_prepared),"owner_prepared":hex(&c.owner_prepared),"file_key":hex(&c.file_key)})
+    json!({"kind":c.kind,"key_bits":c.key_bits,"stm":format!("{:?}",c.stm),"strf":format!("{:?}",c.strf),"extra":c.extra.map(|x| format!("{:?}",x)),"identity_named":c.identity_named,"encrypt_metadata":c.encrypt_metadata,"perm_bits":c.perm_bits,"user_prepared":hex(&c.user_prepared),"owner_prepared":hex(&c.owner_prepared),"file_key":hex(&c.file_key)})
 }
 
 /// witnesses are self-contained: configuration, passwords and document are stored, nothing is regenerated.
@@ -668,6 +684,7 @@ fn conf_from_witness(w: &Value) -> Option<Conf> {
             stm: cfm_from(c.get("stm")?.as_str()?)?,
             strf: cfm_from(c.get("strf")?.as_str()?)?,
             extra: c.get("extra").and_then(|x| x.as_str()).and_then(cfm_from),
+            identity_named: c.get("identity_named").and_then(|x| x.as_bool()).unwrap_or(false),
             encrypt_metadata: c.get("encrypt_metadata")?.as_bool()?,
             perm_bits: c.get("perm_bits")?.as_u64()?,
             user_prepared: unhex(c.get("user_prepared")?.as_str()?),
@@ -703,7 +720,7 @@ fn conf_from_witness(w: &Value) -> Option<Conf> {
     for (i, b) in file_key.iter_mut().enumerate() {
         *b = (i as u8).wrapping_mul(37).wrapping_add(11);
     }
-    Some(Conf { kind, key_bits, stm, strf, extra: None, encrypt_metadata, perm_bits, user, owner, user_prepared: up, owner_prepared: op, file_key })
+    Some(Conf { kind, key_bits, stm, strf, extra: None, identity_named: false, encrypt_metadata, perm_bits, user, owner, user_prepared: up, owner_prepared: op, file_key })
 }
 
 fn replay_generic(w: &Value, tag: &'static str) -> Vec<Finding> {
